@@ -293,6 +293,38 @@ func C17(c *ev.Ctx) {
 		}
 		_ = os.RemoveAll(out)
 	}
+	// very many failing packages in one invocation (exit statuses are 8 bits wide: a status derived from a count
+	// must not wrap to 0): 256 packages with a conversion error each, then 257 with one good package more
+	{
+		many := filepath.Join(c.Scratch, "c17many")
+		_ = os.RemoveAll(many)
+		_ = os.MkdirAll(many, 0755)
+		_ = os.WriteFile(filepath.Join(many, "go.mod"), []byte("module example.com/many17\n\ngo 1.22\n"), 0644)
+		for k := 0; k < 256; k++ {
+			d := filepath.Join(many, fmt.Sprintf("bad/p%03d", k))
+			_ = os.MkdirAll(d, 0755)
+			_ = os.WriteFile(filepath.Join(d, "p.go"), []byte(fmt.Sprintf("package p%03d\n\nfunc F(x uint64) uint64 {\n\tdefer func() {}()\n\treturn x\n}\n", k)), 0644)
+		}
+		_ = os.MkdirAll(filepath.Join(many, "ok"), 0755)
+		_ = os.WriteFile(filepath.Join(many, "ok", "o.go"), []byte("package ok\n\nfunc G() uint64 {\n\treturn 1\n}\n"), 0644)
+		out := filepath.Join(c.Scratch, "c17manyout")
+		for _, pats := range [][]string{{"./bad/..."}, {"./..."}} {
+			for _, ign := range []bool{false, true} {
+				_ = os.RemoveAll(out)
+				args := []string{"-out", out, "-dir", many}
+				if ign {
+					args = append(args, "-ignore-errors")
+				}
+				msg, code := run(many, append(args, pats...)...)
+				if code == 0 {
+					c.Violation("c17.exit-0-with-failures", fmt.Sprintf("goose %v (-ignore-errors=%v) over 256 packages that each have a conversion error: exit status 0\n%s", pats, ign, lastLines(msg, 4)), nil)
+					break
+				}
+			}
+		}
+		_ = os.RemoveAll(out)
+		_ = os.RemoveAll(many)
+	}
 	// import paths of one element: the root package of a module whose path has no slash, and its sub-package
 	{
 		solo := filepath.Join(c.Scratch, "c17solo")
@@ -394,8 +426,9 @@ func C17(c *ev.Ctx) {
 			msg, code := run(cwd, args...)
 			invs++
 			bad := ""
-			if code != e.Exit {
-				bad = fmt.Sprintf("exit status %d, specification (GooseCmd.tla) says %d", code, e.Exit)
+			// the property fixes only zero / non-zero (the specification's 1 stands for any failure status)
+			if (code == 0) != (e.Exit == 0) || code < 0 {
+				bad = fmt.Sprintf("exit status %d, specification (GooseCmd.tla) says %s", code, map[bool]string{true: "0", false: "non-zero"}[e.Exit == 0])
 			}
 			written := map[string]bool{}
 			for _, w := range e.Written {
